@@ -99,6 +99,8 @@ type HostSpec struct {
 	Upload         int    `json:"upload"`                    // upload sessions are handed to this host (-1 none)
 	LocStyle       int    `json:"loc_style,omitempty"`       // regmodel LocStyle when Upload < 0 (0..3)
 	LocScheme      string `json:"loc_scheme,omitempty"`      // "" | http | https: upload POST answers an absolute Location on this host with that scheme
+	NoMountGrant   bool   `json:"no_mount_grant,omitempty"`  // cross-repository mount (from=) is declined: 202 + upload Location
+	AnonMount      int    `json:"anon_mount,omitempty"`      // mount without from=: 0 -> 202 + upload Location, 201 -> granted when any repository holds the blob, 405 -> refused
 	LinkTo         int    `json:"link_to"`                   // second page of the tag list lives on this host (-1 none)
 	Referrers      bool   `json:"referrers,omitempty"`       // referrers API
 	TagPage        int    `json:"tag_page,omitempty"`
